@@ -592,6 +592,24 @@ func genC13(g *Gen) {
 	}
 	s0.op("stop")
 	s0.emit(g)
+	// requests written in the clear in the same segment as the StartTLS request: they sit in the
+	// old reader's buffer when the upgrade happens and must never be served (neither before the
+	// handshake nor, spliced in, inside the tunnel)
+	for _, extra := range []int{1, 3} {
+		s3 := newScen("fixed")
+		s3.op("run 1 1")
+		s3.op("connect")
+		items := []string{s3.req("starttls", "w", "hs")}
+		for i := 0; i < extra; i++ {
+			items = append(items, s3.req("normal", "w"))
+		}
+		s3.send(0, items...)
+		s3.send(0, "hello")
+		s3.send(0, s3.req("normal", "w")) // a request inside the tunnel is served as usual
+		s3.send(0, s3.req("unbind"))
+		s3.op("stop")
+		s3.emit(g)
+	}
 	// upgrade, then nothing more from the client, then Stop (no request round trip in between:
 	// whatever Stop touches of the upgraded connection is not ordered by one)
 	s2 := newScen("fixed")
@@ -654,6 +672,21 @@ func genC17(g *Gen) {
 	s.op("run 0 1")
 	s.op("stop")
 	s.emit(g)
+	// the same with a TLS configuration given to Run (the listener is wrapped after net.Listen)
+	for _, c := range []string{"fixed:addr=busy:tls=tls", "fixed:addr=bad:tls=tls"} {
+		for _, withStop := range []bool{false, true} {
+			s = newScen(c)
+			if strings.Contains(c, "busy") {
+				s.op("run 1 0")
+			} else {
+				s.op("run 0 1")
+			}
+			if withStop {
+				s.op("stop")
+			}
+			s.emit(g)
+		}
+	}
 }
 
 // liferand: random histories over the whole operation alphabet (thorough tier): connections
